@@ -148,6 +148,7 @@ type Run struct {
 	Prop    string
 	Profile string
 	Seed    uint64
+	SweepPos int // position inside a sweep (fault_enumeration profiles), else 0
 	T       *Tape
 	Stats   *Stats
 
@@ -495,8 +496,13 @@ var currentRun atomic.Pointer[Run]
 
 // Execute runs one scenario in a fresh bubble.
 func Execute(t *testing.T, prop, profile string, seed uint64, tape *Tape, sc Scenario) (res *Result) {
+	return ExecuteSweep(t, prop, profile, seed, 0, tape, sc)
+}
+
+// ExecuteSweep is Execute with a sweep position.
+func ExecuteSweep(t *testing.T, prop, profile string, seed uint64, sweepPos int, tape *Tape, sc Scenario) (res *Result) {
 	r := &Run{
-		Prop: prop, Profile: profile, Seed: seed, T: tape, Stats: newStats(),
+		Prop: prop, Profile: profile, Seed: seed, SweepPos: sweepPos, T: tape, Stats: newStats(),
 		byGID: map[uint64]*Task{}, armed: map[string]bool{}, roleLogs: map[string][]string{},
 	}
 	res = &Result{}
@@ -570,7 +576,11 @@ func hashLogs(trace []string, roles map[string][]string) string {
 	sort.Strings(names)
 	for _, k := range names {
 		h.Write([]byte("#" + k + "\n"))
-		for _, l := range roles[k] {
+		// lines of one role may come from several goroutines that ran at the same simulated instant:
+		// the canonical form of a role log is its sorted multiset of lines
+		lines := append([]string(nil), roles[k]...)
+		sort.Strings(lines)
+		for _, l := range lines {
 			h.Write([]byte(l))
 			h.Write([]byte{'\n'})
 		}
@@ -582,7 +592,7 @@ func hashLogs(trace []string, roles map[string][]string) string {
 // Shrinking (delta debugging over the tape).
 
 // Shrink minimises a failing tape while the same oracle keeps failing.
-func Shrink(t *testing.T, prop, profile string, seed uint64, tape []uint64, sc Scenario,
+func Shrink(t *testing.T, prop, profile string, seed uint64, sweepPos int, tape []uint64, sc Scenario,
 	oracle string, maxRuns int, budget time.Duration,
 ) ([]uint64, int) {
 	deadline := time.Now().Add(budget)
@@ -592,7 +602,7 @@ func Shrink(t *testing.T, prop, profile string, seed uint64, tape []uint64, sc S
 			return false
 		}
 		runs++
-		res := Execute(t, prop, profile, seed, ReplayTape(c), sc)
+		res := ExecuteSweep(t, prop, profile, seed, sweepPos, ReplayTape(c), sc)
 		return res.HarnessEr == "" && res.Viol != nil && res.Viol.Oracle == oracle
 	}
 	cur := append([]uint64(nil), tape...)
